@@ -168,8 +168,12 @@ _strtoll (const char *nptr, char **endptr, int base)
   int neg = 0;
   orc_int64 val = 0;
   
+  /* there is always an end pointer, also when no digit is found */
+  if (endptr)
+    *endptr = (char *) nptr;
+
   /* Skip all spaces */
-  while (isspace (*nptr))
+  while (isspace ((unsigned char) *nptr))
     nptr++;
 
   if (!*nptr)
